@@ -47,6 +47,22 @@ def run(rep, idx, tier):
     _glue.reset_discipline(rep, "C15.5", idx, ["WishboneSRAM"])
     _glue.iterable_handover(rep, "C15.5", idx, "WishboneSRAM.__init__", "init", "MemoryData", "init")
     _glue.write_once_handles(rep, "C15.5", idx, "WishboneSRAM")
+    # the `init` property hands out the memory's own initial-contents object: edits made through it (sram.init[k] = v) must
+    # reach the memory, so the getter returns the object itself, not a copy
+    sram = idx.find_class("WishboneSRAM")
+    getters = [f for f in sram.methods.get("init", []) if f.is_property]
+    if getters:
+        g = getters[0]
+        rets = [n.value for n in ast.walk(g.node) if isinstance(n, ast.Return) and n.value is not None]
+        chain_ok = len(rets) == 1 and isinstance(rets[0], ast.Attribute) and rets[0].attr == "init" and \
+            ast.unparse(rets[0]).startswith("self._")
+        wrong = None
+        if len(rets) == 1 and isinstance(rets[0], ast.Call) and isinstance(rets[0].func, ast.Name) and \
+                rets[0].func.id in ("list", "tuple", "copy", "deepcopy", "dict") or \
+                (len(rets) == 1 and isinstance(rets[0], (ast.List, ast.ListComp, ast.Tuple))):
+            wrong = "the getter returns a copy: in-place edits of the initial contents through the property are silently lost"
+        rep.form(chain_ok, "C15.5", g.site, "`init` returns the memory's own initial-contents object",
+                 f"returns {ast.unparse(rets[0])[:60] if rets else None}", wrong=wrong)
     _glue.param_refusals(rep, "C15.4", idx, only=["WishboneSRAM.__init__"])
     c = get_ctx(idx, "WishboneSRAM.elaborate")
     ctor = get_ctor(idx, "WishboneSRAM")
